@@ -227,6 +227,22 @@ CHECKS = {
     ),
 }
 
+# sub-checks added after the table was written (appended to the level text)
+EXTRA = {
+    "C01": " Sub-check headroom: directed generated traces in discipline runs (order near the limit, partial/full cancels and fills, further orders into the freed headroom, starting-price reconciliation, close).",
+    "C02": " Sub-check delivery: every created package is executed exactly once unless its market's recording ends first (event groups included).",
+    "C05": " Sub-checks resting (passive fills only from volume traded at or through the limit) and replace (a replacement order is judged like a fresh placement, BPE-off lapse included).",
+    "C07": " Sub-check inflight (metamorphic): with vs without a request in flight the order is filled identically until the request takes effect.",
+    "C09": " Runs with the pre-play-only listener; removals without a published factor followed by removals with one.",
+    "C11": " One schedule in four runs on a handicap market (the same selection on two lines).",
+    "C13": " Sub-check event_group: A on one market vs B also on a sibling recording of the event; process_orders calls are part of the compared sequence.",
+    "C14": " One child process has a wall clock that runs (11 min per reading); scenarios with hourly transaction limits over several simulated hours.",
+    "C15": " Status / matched-only filters are checked on every view (strategy, strategy+selection+handicap, client, client+strategy) in the simulated machine and the live invariant; markets re-opened after closure.",
+    "C16": " After all queries a removal is applied with the simulation's own routine and every figure is asked for again.",
+    "C19": " Sub-check sim_runs: whole simulation runs over recordings sharing publish times; references shared by a replaced bet and its replacement in the replayed image.",
+    "C20": " Recorder-mode updates with and without a market definition.",
+}
+
 NOT_BUILT_REASON = "check not built yet (build in progress; see DESIGN.md section 4)"
 NOT_APPLICABLE = {}
 
@@ -248,7 +264,7 @@ def main():
             "evidence_file": "/verif/evidence/%s.json" % pid,
             "replay_cmd_template": "/venv/bin/python check.py %s --replay {path}" % pid,
             "engine": "flv",
-            "level_claimed": {"category": c["category"], "text": c["text"], "design_ref": c["design"]},
+            "level_claimed": {"category": c["category"], "text": c["text"] + EXTRA.get(pid, ""), "design_ref": c["design"]},
             "level_note": c["note"],
             "technique": c["technique"],
         })
